@@ -103,6 +103,7 @@ func (ch *Chaos) disturb() {
 		p.InterestRateMax, p.InterestRateMin, p.InterestRate = d(pick(r, "0.3", "0.9")), d(pick(r, "0.05", "0.2")), d(pick(r, "0.2", "0.25"))
 		p.InterestRateIncrease, p.InterestRateDecrease = d(pick(r, "0.01", "0.05")), d(pick(r, "0.01", "0.05"))
 		p.MaxLeverageRatio = d(pick(r, "0.7", "0.8", "0.95"))
+		p.EpochLength = pick(r, int64(1), 2, 5, 17)
 		if w.GovExec("chaos stablestake", &sstypes.MsgUpdateParams{Authority: w.Gov, Params: &p}) {
 			c.Ev("chaos/params/stablestake")
 		}
